@@ -111,6 +111,9 @@ def streams(ctx: C.Ctx):
         c = rng.random()
         rnd.append(h.upper() if c < 0.25 else "".join(ch.upper() if rng.random() < .5 else ch for ch in h) if c < 0.5 else h)
     ctx.run_cases(SIGN, "random-upto-4KiB-mixed-case", rnd, exhaustive=False)
+    # "every byte string" has no upper end: a few long ones, around the sizes where a 16-bit length would give out
+    longs = [rng.randbytes(n).hex() for n in (16380, 32765, 32766, 32768, 65531, 65532, 65536, 100003)]
+    ctx.run_cases(SIGN, "long-packets-16KiB-to-100KiB", longs, exhaustive=False, sample_every=3)
     # the same bytes in another spelling, one call after the other: the result extends THIS spelling, whatever was signed before
     again = []
     for h in [x for x in rnd[:ctx.n(150, 1500)]] + frames[:20] + ["aabb", "00ff10", "deadbeef" * 4]:
